@@ -251,9 +251,10 @@ def check_verdict(lines: T.Sequence[str], events: list, rcs: T.Iterable[int]) ->
     return None
 
 
-# development aid (never set by registered commands): VERIF_C18_NOEXCLUDE=1 keeps the two known defect classes inside the
-# campaigns, e.g. to validate a candidate fix of the parser in a scratch copy (VERIF_REPO=...)
-EXCLUDE_KNOWN = not os.environ.get('VERIF_C18_NOEXCLUDE')
+# The two defect classes found on the pinned tree (duplicate+gap cancelling out, int() digit limit) were repaired by
+# `fix:` commits in /repo (see known_findings.json "fixed"), so they are searched like everything else.  The exclusion
+# machinery is kept only as a development aid: VERIF_C18_EXCLUDE_KNOWN=1 re-enables it (never set by registered commands).
+EXCLUDE_KNOWN = bool(os.environ.get('VERIF_C18_EXCLUDE_KNOWN'))
 
 
 def check_stream(lines: T.Sequence[str], rcs: T.Iterable[int] = (), exclude_known: T.Optional[bool] = None) -> T.Tuple[T.Optional[Failure], str, T.Optional[reftap.Interp]]:
